@@ -517,6 +517,8 @@ inductive Op where
   | strRes (r : ResId)
   | mkIter (i : IterId) (r : ResId)
   | nextIter (i : IterId) (n : Nat)
+  /-- `PaletteClass(colors_conf=k)` called by the program itself (a palette object passed as `palette=`) -/
+  | mkPal (k : ConfId) (cls : ClassId)
 
 /-- an operation that raises leaves the state as it was -/
 def step (cfg : Cfg) (alloc : Alloc) (s : State) : Op → State
@@ -531,6 +533,7 @@ def step (cfg : Cfg) (alloc : Alloc) (s : State) : Op → State
   | .strRes r => match strRes cfg alloc r s with | .ok (s', _) => s' | .error _ => s
   | .mkIter i r => match mkIter i r s with | .ok s' => s' | .error _ => s
   | .nextIter i n => match nextIter cfg alloc i n s with | .ok (s', _) => s' | .error _ => s
+  | .mkPal k cls => match mkPalette cfg alloc cls k false s with | .ok (s', _) => s' | .error _ => s
 
 def run (cfg : Cfg) (alloc : Alloc) (s : State) (ops : List Op) : State := ops.foldl (step cfg alloc) s
 
